@@ -128,15 +128,6 @@ theorem persisters_and_writers_agree :
     (∀ p ∈ persistOrder, p ∈ persisterWrites.map (·.1)) ∧ (∀ w ∈ persisterWrites, w.1 ∈ persistOrder) := by
   decide
 
-/-- What a restorer does to the index table (reviewed by reading agent/consul/state). -/
-inductive IdxEffect
-  | none        -- no index row written
-  | maxMerge    -- indexUpdateMaxTxn(row.ModifyIndex, table)
-  | rebuild     -- runs the write path (ensureRegistrationTxn / insertConfigEntryWithTxn / …): many index rows, computed
-  | verbatim    -- IndexRestore: the row itself
-  | overwrite   -- tx.Insert(tableIndex, {table, row.ModifyIndex}) — last row wins
-deriving DecidableEq, Repr
-
 /-- Reviewed index effect of every registered restorer function. -/
 def restorerEffect : List (String × IdxEffect) :=
   [ ("restoreRegistration", .rebuild),          -- Restore.Registration → ensureRegistrationTxn(idx = header.LastIndex, preserveIndexes)
@@ -205,11 +196,6 @@ theorem instance_persisters_in_order : persisterNames.Sublist persistOrder := by
 
 /-! ## B. the stand-alone instance -/
 
-/-- rows restored after the index table are dominated by it: the table's index row exists and is at least
-    the ModifyIndex of every row (every write to the table sets the table index to its own, larger, index) -/
-def LateBounded (key : Bytes) (late : List Late) (idx : List IdxRow) : Prop :=
-  late ≠ [] → ∃ r ∈ idx, idxKey r = lc key ∧ ∀ p ∈ late, p.modify ≤ r.value
-
 /-- Well-formed states of the instance: tables in id-index order (unique keys), session_checks is the
     derived table, the index table has a row for every non-empty modelled table, and dominates the rows
     of the tables restored after it. -/
@@ -227,30 +213,6 @@ structure WF (s : State) : Prop where
   domP  : LateBounded kPeering s.peerings s.index
   domB  : LateBounded kBundles s.bundles s.index
 
-/-- every index row computed by the restorers that run before IndexRestore is keyed by a table that has a
-    verbatim row in the snapshot -/
-theorem early_index_covered (s : State) (h : WF s) :
-    ∀ y ∈ s.tombs.foldl (fun a t => maxMerge kTombstones t.index a)
-            (s.kvs.foldl (fun a e => maxMerge kKvs e.modify a)
-              (s.sessions.foldl (fun a x => maxMerge kSessions x.modify a) [])),
-      ∃ x ∈ s.index, idxKey y = idxKey x := by
-  intro y hy
-  rcases mem_foldl_maxMerge_imp _ _ _ hy with hy | ⟨hne, hk⟩
-  · rcases mem_foldl_maxMerge_imp _ _ _ hy with hy | ⟨hne, hk⟩
-    · rcases mem_foldl_maxMerge_imp _ _ _ hy with hy | ⟨hne, hk⟩
-      · cases hy
-      · obtain ⟨r, hr, e⟩ := h.hasS hne; exact ⟨r, hr, hk.trans e.symm⟩
-    · obtain ⟨r, hr, e⟩ := h.hasK hne; exact ⟨r, hr, hk.trans e.symm⟩
-  · obtain ⟨r, hr, e⟩ := h.hasT hne; exact ⟨r, hr, hk.trans e.symm⟩
-
-theorem late_noop {key : Bytes} {late : List Late} {idx : List IdxRow} (hs : Sorted idxKey idx)
-    (h : LateBounded key late idx) : late.foldl (fun a p => maxMerge key p.modify a) idx = idx := by
-  cases late with
-  | nil => rfl
-  | cons x xs =>
-    obtain ⟨r, hr, hk, hv⟩ := h (by simp)
-    exact foldl_maxMerge_noop key _ _ hs hr hk hv
-
 /-- **Round trip of the instance.** For every well-formed state, restoring the snapshot gives back exactly
     the same state: same rows, same create/modify indexes, same index table, same derived session_checks.
     Unbounded: any number of rows, any keys, any indexes. -/
@@ -260,7 +222,7 @@ theorem restore_snapshot_instance (s : State) (h : WF s) : restore (snapshot s) 
             (s.kvs.foldl (fun a e => maxMerge kKvs e.modify a)
               (s.sessions.foldl (fun a x => maxMerge kSessions x.modify a) []))) :=
     foldl_maxMerge_sorted _ _ _ (foldl_maxMerge_sorted _ _ _ (foldl_maxMerge_sorted _ _ _ (sorted_nil _)))
-  have h4 := insertAll_cover hsorted h.idx (early_index_covered s h)
+  have h4 := insertAll_cover hsorted h.idx (early_index_covered s h.hasS h.hasK h.hasT)
   simp only [h4]
   rw [late_noop h.idx h.domP, late_noop h.idx h.domB,
     insertAll_nil h.kvs, insertAll_nil h.tombs, insertAll_nil h.sess, insertAll_nil h.peer,
@@ -419,6 +381,18 @@ theorem cut_commutes_obs (m : Machine S C Res) (E : S → S → Prop)
     obtain ⟨r1, r2⟩ := ih _ _ h1
     simp only [Machine.run]
     exact ⟨by rw [h2, r1], r2⟩
+
+/-- non-vacuity of the observational form: for `kvMachine` (defined below in full: it reads and writes only
+    `kvs` and `index`) the relation "same kvs, same index table" satisfies the congruence hypothesis. -/
+example (s t : State) (c : Bytes × Nat × Bool) (h : s.kvs = t.kvs ∧ s.index = t.index) :
+    let m : Machine State (Bytes × Nat × Bool) Bool :=
+      { step := fun s (key, idx, del) =>
+          if del then ({ s with kvs := s.kvs.filter (fun e => e.key ≠ key), index := upsert idxKey ⟨kKvs, idx⟩ s.index }, true)
+          else ({ s with kvs := upsert kvKey ⟨key, "v", idx⟩ s.kvs, index := upsert idxKey ⟨kKvs, idx⟩ s.index }, true) }
+    ((m.step s c).1.kvs = (m.step t c).1.kvs ∧ (m.step s c).1.index = (m.step t c).1.index) ∧
+    (m.step s c).2 = (m.step t c).2 := by
+  obtain ⟨key, idx, del⟩ := c
+  cases del <;> simp [h.1, h.2]
 
 /-- Instance of the exact form: ANY deterministic machine over the stand-alone state that keeps `WF`
     invariant commutes with snapshot + restore at every cut of every log. -/
